@@ -8,7 +8,7 @@ use crate::c04::*;
 use crate::dag::*;
 use crate::rng::*;
 use crate::wire::*;
-use fidget_core::context::{Node, Op};
+use fidget_core::context::{BinaryOpcode, Node, Op};
 use fidget_core::eval::{Function, MathFunction};
 use fidget_core::shape::{EzShape, Shape};
 use fidget_core::types::Interval;
@@ -284,6 +284,13 @@ pub fn run(seed: u64, count: usize, outdir: &str) -> std::io::Result<i32> {
         // ---- implementation: interpreter interval results for the model diff
         let vm = GenericVmFunction::<255>::new(&dag.ctx, &dag.roots).unwrap();
         let mut text = String::from("iv");
+        // atan2 met with both argument intervals exactly zero: the case the property leaves out.  Its result depends on
+        // the signs of the zeros, which `f32::min` / `max` of two zeros (unspecified in Rust) decide: not compared.
+        let diffed = diffed && match interval_eval(&vm, &dag.vs, &bx) {
+            Ok((o, _)) => { let pos: std::collections::HashMap<usize, usize> = dag.roots.iter().enumerate().map(|(k, n)| (n.verif_index(), k)).collect();
+                let zero = |c: &Node| match dag.ctx.get_op(*c) { Some(Op::Const(k)) => k.0 == 0.0, _ => pos.get(&c.verif_index()).map(|j| o[*j].lower() == 0.0 && o[*j].upper() == 0.0).unwrap_or(true) };
+                !(0..dag.ctx.len()).any(|i| matches!(dag.ctx.get_op(Node::verif_new(i)), Some(Op::Binary(BinaryOpcode::Atan, l, r)) if zero(l) && zero(r))) }
+            Err(_) => true };
         if !diffed { text.push_str(" x"); } else {
         match interval_eval(&vm, &dag.vs, &bx) {
             Ok((o, _)) => for i in &o { write!(text, " {}", fmt_interval(i)).unwrap(); },
